@@ -195,7 +195,12 @@ def ir_child_index(o, ir_adt, ir_variant):
 
 def rule_shape(chk, crate, P):
     f = chk.facts
-    tr = TF.Tracer(f, max_depth=1, via=VIA, inline=lambda p: p.startswith(("rssl_text::", "alloc::")))
+    def small_helper(p):
+        # private constructors like `fn make_block_statement(b) -> Box<Statement>`: same crate, not a generator, small
+        b_ = f.bodies.get(p)
+        return b_ is not None and b_.get("crate") == crate and short(p) not in VIA and not short(p).startswith(("generate_", "analyse_")) and \
+            "thir" in b_ and sum(1 for _ in F.walk(b_["thir"])) < 400
+    tr = TF.Tracer(f, max_depth=2, via=VIA, inline=lambda p: p.startswith(("rssl_text::", "alloc::")) or small_helper(p))
     total = 0
     for fn_name, ir_adt, out_adt in (("generate_expression", "Expression", "Expression"), ("generate_statement", "StatementKind", "StatementKind"),
                                      ("generate_for_init", "ForInit", "InitStatement"), ("generate_initializer_inner", "Initializer", "Initializer")):
@@ -336,7 +341,10 @@ def rule_order(chk, crate, P):
     for key in sorted(set(inv) | set(table)):
         got = inv.get(key, 0)
         want, why = table.get(key, (0, None))
-        ok = got == want
+        # reversals, splits and sorts come in matched pairs with the code that relies on them: both directions count.
+        # insert / retain / skip-like operations are judged one way only: a new one can drop or displace an element, a
+        # removed one means the sequence is now built another way (that construction is read by the shape rules)
+        ok = got == want if (key.startswith(("rev", "split", "sort", "reverse"))) else got <= want
         chk.ob(P + ".order/%s/%s" % (cn, key), ok,
                "%d x %s: %s" % (got, key, why) if ok else
                ("%s now has %d `%s` operation(s) on sequences (reviewed: %d) in %s: elements of an emitted sequence can be skipped or reordered"
